@@ -568,6 +568,15 @@ Qed.
 Lemma opt_bind_some {A B} (o : option A) (f : A -> option B) y : opt_bind o f = Some y -> exists x, o = Some x /\ f x = Some y.
 Proof. destruct o; simpl; intros H; [eauto|discriminate]. Qed.
 
+Lemma sep_csame {X} st h (rd : crow -> option X) us ud : sep st ->
+  (forall r s r1 r2, rd r = Some s -> us r = Some r1 -> ud s r1 = Some r2 -> le_ids (ids_row r2) (ids_row r)) ->
+  sep (fst (csame st h rd us ud)).
+Proof.
+  intros Hs H. unfold csame. destruct (row_of st h) as [r|] eqn:Er; simpl; auto. destruct (rd r) as [s|] eqn:E1; simpl; auto.
+  destruct (us r) as [r1|] eqn:E2; simpl; auto. destruct (ud s r1) as [r2|] eqn:E3; simpl; auto.
+  apply (sep_single st h r2 r Hs Er). eapply H; eauto.
+Qed.
+
 Theorem sep_step sc st o : sep st -> sep (fst (cstep sc st o)).
 Proof.
   intros Hs. destruct o.
@@ -586,7 +595,13 @@ Proof.
     destruct (opt_bind (row_of st h2) _) as [r'|] eqn:E; simpl; auto.
     destruct (opt_bind_some _ _ _ E) as (r0 & Hr & Hu).
     apply (sep_single st h2 r' r0 Hs Hr). eapply cupd_le; [|exact Hu]. intros x x' H. inversion H; subst. apply ccopy_row_le.
-  - (* OMoveSlot *) simpl. destruct (ro st h1 || ro st h2); auto. destruct (Nat.eqb h1 h2) eqn:Eh; auto. apply Nat.eqb_neq in Eh.
+  - (* OMoveSlot *) simpl. destruct (ro st h1 || ro st h2); auto. destruct (Nat.eqb h1 h2) eqn:Eh.
+    { destruct (sdiverge p1 j1 p2 j2); auto. apply sep_csame; auto. intros r s r1 r2 Hrd Hus Hud a Ha.
+      destruct (cupd_cnt _ _ _ _ Hus) as (x1 & x1' & A1 & B1 & C1). destruct (on_slot_cnt _ _ _ _ B1) as (s1 & N1 & D1).
+      rewrite A1 in Hrd. simpl in Hrd. rewrite N1 in Hrd. inversion Hrd; subst s1.
+      destruct (cupd_cnt _ _ _ _ Hud) as (x2 & x2' & _ & B2 & C2). destruct (on_slot_cnt _ _ _ _ B2) as (d & _ & D2).
+      specialize (C1 a). specialize (D1 a). specialize (C2 a). specialize (D2 a). rewrite (nz_cmoved s a Ha) in D1. lia. }
+    apply Nat.eqb_neq in Eh.
     destruct (opt_bind (row_of st h1) (fun r => opt_bind (cget r p1) _)) as [s|] eqn:Es; simpl; auto.
     destruct (opt_bind (row_of st h2) _) as [r2|] eqn:E2; simpl; auto.
     destruct (opt_bind (row_of st h1) (fun r => cupd r p1 _)) as [r1|] eqn:E1; simpl; auto.
@@ -597,7 +612,12 @@ Proof.
     destruct (cupd_cnt _ _ _ _ Hu1) as (x1 & x1' & A1 & B1 & C1). destruct (on_slot_cnt _ _ _ _ B1) as (s1 & N1 & D1).
     rewrite A1 in Es. simpl in Es. rewrite N1 in Es. inversion Es; subst s1.
     specialize (C2 a). specialize (D2 a). specialize (C1 a). specialize (D1 a). rewrite (nz_cmoved s a Ha) in D1. lia.
-  - (* OMoveRow *) simpl. destruct (ro st h1 || ro st h2); auto. destruct (Nat.eqb h1 h2) eqn:Eh; auto. apply Nat.eqb_neq in Eh.
+  - (* OMoveRow *) simpl. destruct (ro st h1 || ro st h2); auto. destruct (Nat.eqb h1 h2) eqn:Eh.
+    { destruct (diverge p1 p2); auto. apply sep_csame; auto. intros r s r1 r2 Hrd Hus Hud a Ha.
+      destruct (cupd_cnt _ _ _ _ Hus) as (x1 & x1' & A1 & B1 & C1). inversion B1; subst x1'. rewrite A1 in Hrd. inversion Hrd; subst x1.
+      destruct (cupd_cnt _ _ _ _ Hud) as (x2 & x2' & _ & B2 & C2). inversion B2; subst x2'.
+      specialize (C1 a). specialize (C2 a). rewrite ids_zero_row, cnt_nil in C1. lia. }
+    apply Nat.eqb_neq in Eh.
     destruct (opt_bind (row_of st h1) (fun r => cget r p1)) as [s|] eqn:Es; simpl; auto.
     destruct (opt_bind (row_of st h2) _) as [r2|] eqn:E2; simpl; auto.
     destruct (opt_bind (row_of st h1) (fun r => cupd r p1 _)) as [r1|] eqn:E1; simpl; auto.
@@ -608,7 +628,14 @@ Proof.
     destruct (cupd_cnt _ _ _ _ Hu1) as (x1 & x1' & A1 & B1 & C1). inversion B1; subst x1'.
     rewrite A1 in Es. inversion Es; subst x1.
     specialize (C2 a). specialize (C1 a). rewrite ids_zero_row, cnt_nil in C1. lia.
-  - (* OMoveAppend *) simpl. destruct (ro st h1 || ro st h2); auto. destruct (Nat.eqb h1 h2) eqn:Eh; auto. apply Nat.eqb_neq in Eh.
+  - (* OMoveAppend *) simpl. destruct (ro st h1 || ro st h2); auto. destruct (Nat.eqb h1 h2) eqn:Eh.
+    { destruct (sdiverge p1 j1 p2 j2); auto. apply sep_csame; auto. intros r s r1 r2 Hrd Hus Hud a Ha.
+      destruct (cupd_cnt _ _ _ _ Hus) as (x1 & x1' & A1 & B1 & C1). destruct (on_slot_cnt _ _ _ _ B1) as (s1 & N1 & D1).
+      rewrite A1 in Hrd. simpl in Hrd. rewrite N1 in Hrd. simpl in Hrd. destruct (is_cs s1) eqn:Hcs; inversion Hrd; subst s1.
+      destruct (cupd_cnt _ _ _ _ Hud) as (x2 & x2' & _ & B2 & C2). destruct (on_slot_cnt _ _ _ _ B2) as (d & _ & D2).
+      pose proof (move_append_slot_le s d newcap a Hcs Ha) as K.
+      specialize (C1 a). specialize (D1 a). specialize (C2 a). specialize (D2 a). simpl in D1. rewrite cnt_nil in D1. lia. }
+    apply Nat.eqb_neq in Eh.
     destruct (opt_bind (row_of st h1) (fun r => opt_bind (cget r p1) _)) as [s|] eqn:Es; simpl; auto.
     destruct (is_cs s) eqn:Hcs; simpl; auto.
     destruct (opt_bind (row_of st h2) _) as [r2|] eqn:E2; simpl; auto.
